@@ -17,22 +17,40 @@ VARIABLES l
 vars == <<l>>
 
 \* generator predicate of the quantifier: rules on one domain part start with pairwise distinct literals
+\* (a rule whose domain part has variables may meet any other rule: its first literal is distinct from all)
 NonOverlap(m) == \A i, j \in 1..Len(m.rules) :
    /\ Len(m.rules[i].segs) >= 1 /\ m.rules[i].segs[1].k = "lit"
-   /\ (i # j /\ m.rules[i].dom = m.rules[j].dom) => m.rules[i].segs[1].t # m.rules[j].segs[1].t
+   /\ (i # j /\ (m.rules[i].dom = m.rules[j].dom \/ m.rules[i].dsegs # <<>> \/ m.rules[j].dsegs # <<>>)) => m.rules[i].segs[1].t # m.rules[j].segs[1].t
 
-CallInDomain(r) == LET C == Candidates(r.map.rules, r.ep, r.vals) IN
-   NonOverlap(r.map) /\ C # {} /\ \A i \in C : InDomain(r.map.rules[i], r.vals)
+\* the values build() works with: None values are dropped; with append_unknown=False the values that are no
+\* argument of any rule of the endpoint play no role
+EpArgs(m, ep) == UNION {Args(m.rules[i]) : i \in {j \in 1..Len(m.rules) : m.rules[j].ep = ep}}
+EffVals(r) == LET v == Live(r.vals) IN IF r.au THEN v ELSE SelectSeq(v, LAMBDA x : x.name \in EpArgs(r.map, r.ep))
+
+\* growth features of a call decide the clause prefix: Dom (variables in the domain part), Multi (several
+\* variables in one segment), Opt (min / max options), Qry (sorting, append_unknown=False, None values)
+CandRules(r) == {r.map.rules[i] : i \in Candidates(r.map.rules, r.ep, EffVals(r))}
+HasMulti(x) == \E i \in 1..Len(x.segs) : x.segs[i].k = "var" /\ x.segs[i].more # <<>>
+HasRange(x) == \E i \in 1..Len(AllVars(x)) : AllVars(x)[i].conv.hasmin \/ AllVars(x)[i].conv.hasmax
+Feature(r) == IF \E x \in CandRules(r) : x.dsegs # <<>> THEN "Dom"
+              ELSE IF \E x \in CandRules(r) : HasMulti(x) THEN "Multi"
+              ELSE IF r.map.sort # 0 \/ ~r.au \/ Len(Live(r.vals)) # Len(r.vals) THEN "Qry"
+              ELSE IF \E x \in CandRules(r) : HasRange(x) THEN "Opt" ELSE ""
+SameBag(a, b) == Len(a) = Len(b) /\ \A i \in 1..Len(a) :
+   Cardinality({j \in 1..Len(a) : a[j] = a[i]}) = Cardinality({j \in 1..Len(b) : b[j] = a[i]})
+
+CallInDomain(r) == LET C == Candidates(r.map.rules, r.ep, EffVals(r)) IN
+   NonOverlap(r.map) /\ C # {} /\ \A i \in C : InDomain(r.map.rules[i], EffVals(r))
 
 ObsClause(r, o) ==
   IF o.kind = "skip" THEN "ok"
   ELSE IF o.kind = "redirect" THEN "BuiltUrlRedirects"   \* the matcher sends the URL build() returned to another URL
   ELSE IF o.kind # "match" THEN "NotMatched"
   ELSE IF o.ep # r.ep THEN "EndpointDiffers"
-  ELSE IF ValSet(o.vals) \notin ExpectedVals(r.map, r.ep, r.vals) THEN "ValuesDiffer"
+  ELSE IF ValSet(o.vals) \notin ExpectedVals(r.map, r.ep, EffVals(r)) THEN "ValuesDiffer"
   ELSE "ok"
 
-JudgeRT(r) ==
+JudgeRT0(r) ==
   IF ~CallInDomain(r) THEN "ok"
   ELSE IF r.exc # "" THEN "BuildFailed"
   ELSE LET d == Deliver(r.map, r.bind, r.url)
@@ -43,14 +61,23 @@ JudgeRT(r) ==
        ELSE IF r.e.kind = "skip" THEN "HarnessDeliver"
        ELSE LET a == ObsClause(r, r.m) b == ObsClause(r, r.e) IN
             IF a # "ok" THEN a ELSE IF b # "ok" THEN b
-            ELSE IF r.qargs \notin ExpectedExtras(r.map, r.ep, r.vals, ValSet(r.e.vals)) THEN "QueryDiffers"
+            ELSE IF r.map.sort = 0 /\ r.qargs \notin ExpectedExtras(r.map, r.ep, EffVals(r), ValSet(r.e.vals)) THEN "QueryDiffers"
+            ELSE IF r.map.sort # 0 /\ ~\E x \in ExpectedExtras(r.map, r.ep, EffVals(r), ValSet(r.e.vals)) : SameBag(r.qargs, x) THEN "QueryDiffers"
             ELSE IF r.rb_exc # "" THEN "RebuildFailed"
             ELSE IF r.rebuilt # StripQuery(r.url) THEN "RebuildDiffers"
             ELSE "ok"
 
+JudgeRT(r) == LET c == JudgeRT0(r) IN IF c \in {"ok", "HarnessDeliver"} THEN c ELSE Feature(r) \o c
+
 DomOfBind(m, b) == IF m.host_matching THEN b.server ELSE b.sub
-JudgeConv(r) ==
-  IF ~NonOverlap(r.map) \/ r.m.kind # "match" THEN "ok"
+ConvFeature(r) == IF \E i \in 1..Len(r.map.rules) : r.map.rules[i].dsegs # <<>> THEN "Dom"
+                  ELSE IF \E i \in 1..Len(r.map.rules) : HasMulti(r.map.rules[i]) THEN "Multi"
+                  ELSE IF \E i \in 1..Len(r.map.rules) : HasRange(r.map.rules[i]) THEN "Opt" ELSE ""
+\* the adapter of a conv line is bound on a domain part whose variable values are inside the claimed domain
+DomGuard(r) == LET d == DomOfBind(r.map, r.bind) IN
+  \A j \in 1..Len(r.map.rules) : (r.map.rules[j].dsegs # <<>> /\ DomAdmits(r.map.rules[j], d, FALSE)) => DomAdmits(r.map.rules[j], d, TRUE)
+JudgeConv0(r) ==
+  IF ~NonOverlap(r.map) \/ r.m.kind # "match" \/ ~DomGuard(r) THEN "ok"
   ELSE IF \E i \in 1..Len(r.m.vals) : r.m.vals[i].ty = "other" THEN "ok"
   ELSE IF r.rb_exc # "" THEN "ConverseBuildFailed"
   ELSE LET d == Deliver(r.map, r.bind, r.rebuilt) IN
@@ -60,15 +87,18 @@ JudgeConv(r) ==
        ELSE IF CanonPath(r.map, DomOfBind(r.map, r.bind), r.path) /\ d.path # r.path THEN "ConverseDiffers"
        ELSE "ok"
 
+JudgeConv(r) == LET c == JudgeConv0(r) IN IF c \in {"ok", "HarnessDeliver"} THEN c ELSE ConvFeature(r) \o c
+
 Verdict(r) == CASE r.op = "rt" -> JudgeRT(r) [] r.op = "conv" -> JudgeConv(r) [] OTHER -> "ok"
 
 \* model drift: the Build / Match models against the observed URL / match (never a verdict)
 DriftRT(r) ==
   IF ~CallInDomain(r) \/ r.exc # "" \/ Len(r.url) > 300 THEN "ok"
-  ELSE LET bu == BuildUrl(r.map, r.bind, r.ep, r.vals, r.ext) IN
+  ELSE LET bu == BuildUrl(r.map, r.bind, r.ep, EffVals(r), r.ext) IN
        IF ~bu.ok \/ bu.url # r.url THEN "build"
        ELSE IF r.e.kind = "match" /\ r.under
                /\ ~\E x \in MatchM(r.map, DomPart(r.map, r.bind, r.dhost).dom, r.dpath) : x.ep = r.e.ep /\ x.vals = ValSet(r.e.vals) THEN "match"
+       ELSE IF r.map.sort # 0 /\ r.under /\ QueryDecode(r.dquery) \notin ExpectedExtras(r.map, r.ep, EffVals(r), ValSet(r.e.vals)) THEN "qsort"
        ELSE "ok"
 DriftConv(r) ==
   IF ~NonOverlap(r.map) \/ Len(r.path) > 200 THEN "ok"
